@@ -120,8 +120,11 @@ CHECKS = {
                    "(error, failing index, state = verified prefix / unchanged, resulting chain replays on a fresh node).",
         level_note="Enumeration is exhaustive per batch over positions x fault kinds (quick tier: all positions, 4 drawn kinds "
                    "when the product exceeds 40); batches and chains themselves are sampled. The state reference for a "
-                   "verified prefix is the producer's historical view at that height (C07 machinery). Known finding "
-                   "C16/rollback-before-verify is tolerated exactly (node on the verified prefix of the delivered fork).",
+                   "verified prefix is the producer's historical view at that height (C07 machinery). For a faulted fork the "
+                   "node must have stayed on its own chain unchanged, unless the verified part before the fault is itself "
+                   "strictly longer than the node's branch (then it is exactly on that part). Followers also hold pooled "
+                   "blocks acknowledging their own branch; after an adoption every pooled block must acknowledge a "
+                   "momentum of the adopted chain. The window edge (fork depth 30 / 31) is generated exactly.",
         technique="fault injection enumerated over positions x kinds on generated batches (rapid), reference decision from the statement",
         rule="case = world + local chain + batch variants; evaluation unit = one faulted delivery; distinct non-trivial = distinct "
              "(variant, fault kind, position relative to first unknown element, batch length, fork depth) tuples plus distinct cases",
